@@ -518,6 +518,13 @@ for h in ["k_encoder_finalize_fault_none", "k_encoder_finalize_fault_seek", "k_e
                  "(not a buffer whose flush error is dropped)",
         stubs=["metadata::write_blocks (writes one byte through the writer it is handed and propagates the outcome)", "md5::Context::finalize"], timeout=200)
 
+add("K-channel_mask_from_str_total", ["C12"], M + "k_channel_mask_from_str_total", tier="quick", bound="all UTF-8 texts of at most 4 bytes",
+    functions=["metadata::ChannelMask::from_str"],
+    contract="ChannelMask::from_str never panics (short text, text without the prefix, multi-byte characters); \"0x\" + two hex digits parses to that number; text without a leading 0 is an error", timeout=400)
+add("K-cdda_offset_from_str_m2", ["C12"], "metadata::cuesheet::verif_k::k_cdda_offset_from_str_m2", tier="thorough", bound="texts DD:DD:DD (all digit values); longer minute fields -- where the arithmetic can overflow -- do not finish",
+    functions=["metadata::cuesheet::CDDAOffset::from_str"],
+    contract="CDDAOffset::from_str(MM:SS:FF) never panics; Ok iff SS < 60 and FF < 75, and then the offset is ((MM*60+SS)*75+FF)*588 samples", timeout=900)
+
 add("K-padding_roundtrip", ["C11", "C12"], M + "k_padding_roundtrip", tier="quick", bound="sizes <= 64 bytes; all stream contents and truncations",
     functions=["metadata::Padding::from_reader", "metadata::Padding::to_writer"],
     contract="PADDING: parse(size) consumes exactly size bytes (fails only on a short stream) and yields Padding{size}; serialising writes exactly size zero bytes; bytes() == size", timeout=300)
